@@ -15,6 +15,7 @@ mod c07;
 mod c15;
 mod c14;
 mod c11;
+mod c09;
 mod common;
 mod dict;
 mod world;
@@ -57,6 +58,7 @@ fn main() {
         "C15" => c15::run(&mut run),
         "C14" => c14::run(&mut run),
         "C11" => c11::run(&mut run),
+        "C09" => c09::run(&mut run),
         _ => { eprintln!("unknown property {}", prop); std::process::exit(2); }
     }
     run.finish();
